@@ -75,6 +75,35 @@ def build(ctx):
     g.trace('tr_Q_rsmul', [('k', 'S'), ('q', 'V4')], lambda k, q: (k * Q(q)).vec)
     g.trace('tr_Q_pow3', [('q', 'V4')], lambda q: (Q(q) ** 3).vec, tol=1e-9, post=expand_all)
     g.trace('tr_Q_powm2', [('q', 'V4')], lambda q: (Q(q) ** -2).vec, tol=1e-9, post=expand_all)
+    # ---- class layer on MULTI-VALUED operands: 4 quaternions = the rows of an M44, 2 quaternions = the halves of a V8
+    S4 = lambda M: Quaternion([M[i] for i in range(4)])
+    S2 = lambda a: Quaternion([a[0:4], a[4:8]])
+    rows = lambda R: np.array([x for x in R.data], dtype=object)
+    flat2 = lambda R: np.array([x for x in R.data], dtype=object).reshape(8)
+    seq = lambda *a, **k: g.trace(*a, optional=True, **k)
+    seq('tr_S4_inner_NN', [('P', 'M44'), ('R', 'M44')], lambda P, R: np.array(S4(P).inner(S4(R)), dtype=object), out='V4')
+    seq('tr_S4_inner_N1', [('P', 'M44'), ('q', 'V4')], lambda P, q: np.array(S4(P).inner(Q(q)), dtype=object), out='V4')
+    seq('tr_S4_inner_1N', [('q', 'V4'), ('P', 'M44')], lambda q, P: np.array(Q(q).inner(S4(P)), dtype=object), out='V4')
+    seq('tr_S4_mul_NN', [('P', 'M44'), ('R', 'M44')], lambda P, R: rows(S4(P) * S4(R)), out='M44')
+    seq('tr_S4_mul_N1', [('P', 'M44'), ('q', 'V4')], lambda P, q: rows(S4(P) * Q(q)), out='M44')
+    seq('tr_S4_mul_1N', [('q', 'V4'), ('P', 'M44')], lambda q, P: rows(Q(q) * S4(P)), out='M44')
+    seq('tr_S4_add_NN', [('P', 'M44'), ('R', 'M44')], lambda P, R: rows(S4(P) + S4(R)), out='M44')
+    seq('tr_S4_sub_NN', [('P', 'M44'), ('R', 'M44')], lambda P, R: rows(S4(P) - S4(R)), out='M44')
+    seq('tr_S4_add_N1', [('P', 'M44'), ('q', 'V4')], lambda P, q: rows(S4(P) + Q(q)), out='M44')
+    seq('tr_S4_sub_1N', [('q', 'V4'), ('P', 'M44')], lambda q, P: rows(Q(q) - S4(P)), out='M44')
+    seq('tr_S4_conj', [('P', 'M44')], lambda P: rows(S4(P).conj()), out='M44')
+    seq('tr_S4_norm', [('P', 'M44')], lambda P: np.array(S4(P).norm(), dtype=object), out='V4')
+    seq('tr_S4_pow2', [('P', 'M44')], lambda P: rows(S4(P) ** 2), out='M44', post=expand_all, tol=1e-9)
+    seq('tr_S4_smul', [('k', 'S'), ('P', 'M44')], lambda k, P: rows(S4(P) * k), out='M44')
+    seq('tr_S2_inner_NN', [('a', 'V8'), ('b', 'V8')], lambda a, b: np.array(S2(a).inner(S2(b)), dtype=object), out='V2')
+    seq('tr_S2_inner_1N', [('q', 'V4'), ('a', 'V8')], lambda q, a: np.array(Q(q).inner(S2(a)), dtype=object), out='V2')
+    seq('tr_S2_mul_NN', [('a', 'V8'), ('b', 'V8')], lambda a, b: flat2(S2(a) * S2(b)), out='V8')
+    seq('tr_S2_mul_N1', [('a', 'V8'), ('q', 'V4')], lambda a, q: flat2(S2(a) * Q(q)), out='V8')
+    seq('tr_S2_mul_1N', [('q', 'V4'), ('a', 'V8')], lambda q, a: flat2(Q(q) * S2(a)), out='V8')
+    seq('tr_S2_add_NN', [('a', 'V8'), ('b', 'V8')], lambda a, b: flat2(S2(a) + S2(b)), out='V8')
+    seq('tr_S2_sub_NN', [('a', 'V8'), ('b', 'V8')], lambda a, b: flat2(S2(a) - S2(b)), out='V8')
+    seq('tr_S2_conj', [('a', 'V8')], lambda a: flat2(S2(a).conj()), out='V8')
+    seq('tr_S2_norm', [('a', 'V8')], lambda a: np.array(S2(a).norm(), dtype=object), out='V2')
     # ---- dual quaternions
     DQ = lambda a: DualQuaternion(Q(a[0:4]), Q(a[4:8]))
     g.trace('tr_DQ_mul', [('a', 'V8'), ('b', 'V8')], lambda a, b: (DQ(a) * DQ(b)).vec)
@@ -788,6 +817,122 @@ def oracle_explog(ctx, th):
 
 
 
+def oracle_multi(ctx):
+    """every class-level operation of C12 on MULTI-VALUED Quaternion / UnitQuaternion operands (lengths 2..5, 4
+    included in every round; N x N, N x 1, 1 x N): the result must have N elements, element k equal to the
+    single-valued operation on the k-th operand(s) AND to the independent reference (1e-9; exp/log 1e-6).
+    Keys follow C09's: oracle:method:<Class>.<op>:sequence-raises:<Exc> / oracle:op:<Class>.<op>:<shape>:raises:<Exc>;
+    a wrong value / length / shape is ...:wrong-value (always a finding)."""
+    rng = ctx.rng
+    hx = lambda a: [float(x).hex() for x in np.asarray(a, float).flatten()]
+
+    def owner(X, attr):
+        return next((c.__name__ for c in type(X).__mro__ if attr in c.__dict__), type(X).__name__)
+
+    def elems(r, N):
+        """result of a sequence operation as a list of N float arrays (None if it does not have N elements)"""
+        if isinstance(r, Quaternion):
+            return [np.asarray(x, float) for x in r.data] if len(r) == N else None
+        a = np.asarray(r, float)
+        return [a[k] for k in range(N)] if a.ndim >= 1 and a.shape[0] == N else None
+
+    def run(cls, op, attr, shape, N, f_seq, f_single, refs, operands, tol=1e-9):
+        """f_seq(): the multi-valued call; f_single(k): the same call on the k-th elements; refs[k]: independent value"""
+        kind = 'method' if shape == 'N' else 'op'
+        base_key = f"oracle:{kind}:{cls}.{op}:" + ('sequence' if shape == 'N' else shape)
+        rep = {'operation': f'{cls}.{op}', 'shape': shape, 'N': N, 'operands_hex': [hx(o) for o in operands],
+               'operands': [np.asarray(o, float).tolist() for o in operands]}
+        ctx.case(('multi', cls, op, shape, N, tuple(np.asarray(operands[0], float).flatten()[:8])))
+        ctx.count(f'oracle:multi:{op}:{shape}')
+        try:
+            with np.errstate(all='ignore'):
+                r = f_seq()
+        except Exception as ex:
+            sep = '-raises:' if shape == 'N' else ':raises:'
+            ctx.fail(base_key + sep + type(ex).__name__,
+                     f"{cls}.{op} on {N} values ({shape}) raises {type(ex).__name__}: {ex}", rep)
+            return
+        el = elems(r, N)
+        if el is None:
+            ctx.fail(base_key + ':wrong-value', f"{cls}.{op} on {N} values ({shape}) does not return {N} elements: "
+                     f"{type(r).__name__} of shape {np.shape(np.asarray(r, dtype=object))}", rep)
+            return
+        for k in range(N):
+            with np.errstate(all='ignore'):
+                single = np.asarray(f_single(k), float)
+            ref = np.asarray(refs[k], float)
+            scale = max(1.0, float(np.max(np.abs(ref))))
+            for what, want in (('the single-valued result', single), ('the reference', ref)):
+                if el[k].shape != want.shape or not np.max(np.abs(el[k] - want)) <= tol * scale:
+                    ctx.fail(base_key + ':wrong-value',
+                             f"{cls}.{op} on {N} values ({shape}): element {k} is {el[k].tolist()}, {what} is {want.tolist()}",
+                             dict(rep, element=k, got=el[k].tolist(), expected=want.tolist()))
+                    return
+
+    rounds = ctx.n(6, 60)
+    for rnd in range(rounds):
+        for N in sorted({4, int(rng.integers(2, 6)), 2 + rnd % 4}):
+            for cls in ('Quaternion', 'UnitQuaternion'):
+                unit = cls == 'UnitQuaternion'
+                mk = (lambda: rand_unit(rng, 4)) if unit else (lambda: rng.normal(size=4) * log_uniform(rng, 1e-2, 1e2))
+                a, b, c = [mk() for _ in range(N)], [mk() for _ in range(N)], mk()
+                K = UnitQuaternion if unit else Quaternion
+                one = lambda v: K(v, norm=False) if unit else K(v)
+                A, B, C = K(a, norm=False) if unit else K(a), K(b, norm=False) if unit else K(b), one(c)
+                Ak, Bk = [one(v) for v in a], [one(v) for v in b]
+                for shape, (X, Y, xs, ys, Xk, Yk) in {'NxN': (A, B, a, b, Ak, Bk), 'Nx1': (A, C, a, [c] * N, Ak, [C] * N),
+                                                      '1xN': (C, A, [c] * N, a, [C] * N, Ak)}.items():
+                    opnd = [np.array(xs if shape != '1xN' else c), np.array(ys if shape != 'Nx1' else c)]
+                    run(owner(X, 'inner'), 'inner', 'inner', shape, N, lambda: X.inner(Y), lambda k: Xk[k].inner(Yk[k]),
+                        [xs[k] @ ys[k] for k in range(N)], opnd)
+                    run(owner(X, '__mul__'), 'mul', '__mul__', shape, N, lambda: X * Y, lambda k: (Xk[k] * Yk[k]).vec,
+                        [hamilton(xs[k], ys[k]) for k in range(N)], opnd)
+                    run(owner(X, '__add__'), 'add', '__add__', shape, N, lambda: X + Y, lambda k: (Xk[k] + Yk[k]).vec,
+                        [xs[k] + ys[k] for k in range(N)], opnd)
+                    run(owner(X, '__sub__'), 'sub', '__sub__', shape, N, lambda: X - Y, lambda k: (Xk[k] - Yk[k]).vec,
+                        [xs[k] - ys[k] for k in range(N)], opnd)
+                    # dual quaternions whose parts hold several values: the operations that go through the Quaternion
+                    # operators (+ - * conj); norm / matrix / vec are single-valued by construction and not exercised
+                    if not unit:
+                        Dx, Dy = DualQuaternion(X, Y), DualQuaternion(Y, X)
+                        dref = [(hamilton(xs[k], ys[k]), hamilton(xs[k], xs[k]) + hamilton(ys[k], ys[k])) for k in range(N)]
+                        run('DualQuaternion', 'mul.real', '__mul__', shape, N, lambda: (Dx * Dy).real,
+                            lambda k: (DualQuaternion(Xk[k], Yk[k]) * DualQuaternion(Yk[k], Xk[k])).real.vec, [d[0] for d in dref], opnd)
+                        run('DualQuaternion', 'mul.dual', '__mul__', shape, N, lambda: (Dx * Dy).dual,
+                            lambda k: (DualQuaternion(Xk[k], Yk[k]) * DualQuaternion(Yk[k], Xk[k])).dual.vec, [d[1] for d in dref], opnd)
+                        run('DualQuaternion', 'add.real', '__add__', shape, N, lambda: (Dx + Dy).real,
+                            lambda k: (Xk[k] + Yk[k]).vec, [xs[k] + ys[k] for k in range(N)], opnd)
+                        run('DualQuaternion', 'sub.dual', '__sub__', shape, N, lambda: (Dx - Dy).dual,
+                            lambda k: (Yk[k] - Xk[k]).vec, [ys[k] - xs[k] for k in range(N)], opnd)
+                        if shape == 'NxN':
+                            run('DualQuaternion', 'conj.dual', 'conj', shape, N, lambda: Dx.conj().dual,
+                                lambda k: Yk[k].conj().vec, [ys[k] * np.r_[1, -1, -1, -1] for k in range(N)], opnd)
+                # unary operations and scalar multiples
+                kf = float(rng.normal() * 3)
+                n = int(rng.integers(-6, 7))
+
+                def powref(v):
+                    r = np.r_[1.0, 0, 0, 0]
+                    for _ in range(abs(n)):
+                        r = hamilton(r, v)
+                    return r * np.r_[1, -1, -1, -1] if n < 0 else r
+                mats = lambda v: np.array([[v[0], -v[1], -v[2], -v[3]], [v[1], v[0], -v[3], v[2]],
+                                           [v[2], v[3], v[0], -v[1]], [v[3], -v[2], v[1], v[0]]])
+                un = [('conj', 'conj', lambda Z: Z.conj(), lambda v: v * np.r_[1, -1, -1, -1], 1e-9),
+                      ('norm', 'norm', lambda Z: Z.norm(), lambda v: np.linalg.norm(v), 1e-9),
+                      ('pow', '__pow__', lambda Z: Z ** n, powref, 1e-9),
+                      ('smul', '__mul__', lambda Z: Z * kf, lambda v: kf * v, 1e-9),
+                      ('rsmul', '__rmul__', lambda Z: kf * Z, lambda v: kf * v, 1e-9),
+                      ('matrix', 'matrix', lambda Z: Z.matrix, mats, 1e-9),
+                      ('exp', 'exp', lambda Z: Z.exp(), qexp_ref, 1e-6),
+                      ('log', 'log', lambda Z: Z.log(), qlog_ref, 1e-6)]
+                for op, attr, f, ref, tol in un:
+                    vec = lambda r: r.vec if isinstance(r, Quaternion) else r
+                    run(owner(A, attr), op, attr, 'N', N, lambda: f(A), lambda k: vec(f(Ak[k])), [ref(v) for v in a], [np.array(a)], tol)
+    ctx.sample({'kind': 'oracle', 'identity': 'multi-valued inner NxN', 'N': N, 'a': np.asarray(a).tolist(), 'b': np.asarray(b).tolist()})
+
+
+
 def run(ctx):
     ctx.rule = ("obligations: theorems of theories/Props/C12.v over the traces regenerated from /repo and of "
                 "theories/Props/C12_explog.v over the hand model of exp/log instantiated with the thresholds regenerated "
@@ -820,6 +965,12 @@ def run(ctx):
         ctx.fail('gen:compile', 'generated traces do not compile: ' + err[-800:], no_input=True)
     else:
         ctx.prove('theories/Props/C12.v')
+        if any(nm.startswith('tr_S') for nm, _ in g.failed):
+            ctx.fail('gen:trace:class-layer-on-sequences', 'the class layer could not be executed symbolically on multi-valued '
+                     'operands: ' + '; '.join(f'{nm}: {why}' for nm, why in g.failed if nm.startswith('tr_S'))[:1500],
+                     {'failed': g.failed}, no_input=True)
+        else:
+            ctx.prove('theories/Props/C12_seq.v')
         if consts_ok:
             ctx.prove('theories/Props/C12_explog.v')
         with ctx.timed('correspond'):
@@ -833,3 +984,5 @@ def run(ctx):
         oracle(ctx)
     with ctx.timed('oracle-explog'):
         oracle_explog(ctx, th)
+    with ctx.timed('oracle-multi'):
+        oracle_multi(ctx)
